@@ -125,6 +125,14 @@ func (f *TimeBucketInfo) Validate() error {
 				name, elementNameHeaderBytes)
 		}
 	}
+	// A daily bucket stores the record of January 1 at index 0, i.e. in the recordLength bytes
+	// in front of the data area: it must not reach back into the used part of the header.
+	const elementTypesOffset = Headersize - reservedHeader2Bytes*8 - maxNumElements
+	if f.recordType == FIXED && f.timeframe == utils.Day &&
+		int(f.recordLength) > Headersize-elementTypesOffset-len(f.elementTypes) {
+		return fmt.Errorf("records of %d bytes are too long for a daily bucket with %d columns",
+			f.recordLength, len(f.elementTypes))
+	}
 	return nil
 }
 
